@@ -219,6 +219,15 @@ def t_owntypes(r, name):
     return "func %s() uint64 {\n\tc := new(Cond)\n\tc.Wait()\n\tc.Signal()\n\treturn c.n + %d\n}\n" % (name, r.randrange(1, 9)), True
 
 
+def t_poll(r, name):
+    """a polling loop that gives the mutex up and takes it again until another goroutine has set a flag"""
+    v = r.randrange(1, 70)
+    body = "func %s() uint64 {\n\tmu := new(sync.Mutex)\n\tvar done bool = false\n\tvar n uint64 = %d\n" % (name, v)
+    body += "\tgo func() {\n%s\t\tmu.Lock()\n\t\tn = n + 1\n\t\tdone = true\n\t\tmu.Unlock()\n\t}()\n" % sleep(r, 0.5)
+    body += "\tmu.Lock()\n\tfor !done {\n\t\tmu.Unlock()\n\t\tmu.Lock()\n\t}\n\tres := n\n\tmu.Unlock()\n\treturn res\n}\n"
+    return body, True
+
+
 def t_byvalue(r, name):
     """forms goose does not translate (a wait group held by value, the mutex reached through a condition variable's L field):
     they must be rejected, or mean what Go means"""
@@ -231,10 +240,10 @@ def t_byvalue(r, name):
 
 MAY_BE_REJECTED = {"t_goargs", "t_byvalue"}
 
-TEMPLATES = [t_goargs, t_counter, t_counter, t_cond, t_timeout, t_order, t_loopspawn, t_helper, t_handoff, t_signalled, t_owntypes, t_bcast, t_byvalue, t_byvalue]
+TEMPLATES = [t_goargs, t_counter, t_counter, t_cond, t_timeout, t_order, t_loopspawn, t_helper, t_handoff, t_signalled, t_owntypes, t_bcast, t_byvalue, t_byvalue, t_poll]
 
 
-def package(seed, nfuncs=11):
+def package(seed, nfuncs=12):
     r = random.Random(seed)
     fns = []
     for k in range(nfuncs):
@@ -242,7 +251,7 @@ def package(seed, nfuncs=11):
         # whose mutex lives in a re-assignable variable; then templates by rotation and at random
         r.force_zero_timeout = (seed % 2 == 0)
         r.force_var_mutex = (k == 2)
-        t = [t_timeout, t_goargs, t_counter, t_signalled, t_owntypes, t_bcast, t_byvalue][k] if k < 7 else TEMPLATES[(seed * 3 + k) % len(TEMPLATES)] if k < 10 else r.choice(TEMPLATES)
+        t = [t_timeout, t_goargs, t_counter, t_signalled, t_owntypes, t_bcast, t_byvalue, t_poll][k] if k < 8 else TEMPLATES[(seed * 3 + k) % len(TEMPLATES)] if k < 11 else r.choice(TEMPLATES)
         src, det = t(r, "c%d" % k)
         fns.append(("c%d" % k, t.__name__, src, det))
     body = "\n".join(f[2] for f in fns)
